@@ -6,6 +6,29 @@
 //! `lean/Account/Account/Driver/ProgAcct.lean`.
 use star_frame::prelude::*;
 
+/// What `data()` / `data_mut()` expose of an account type: the bytes of its fixed-size part.
+pub trait ZcView: ProgramAccount + UnsizedType + 'static {
+    fn show(p: &Self::Ptr) -> Vec<u8>;
+}
+macro_rules! pod_view {
+    ($t:ty) => {
+        impl ZcView for $t {
+            fn show(p: &<Self as UnsizedType>::Ptr) -> Vec<u8> {
+                bytemuck::bytes_of::<$t>(&**p).to_vec()
+            }
+        }
+    };
+}
+macro_rules! ab_view {
+    ($t:ty) => {
+        impl ZcView for $t {
+            fn show(p: &<Self as UnsizedType>::Ptr) -> Vec<u8> {
+                vec![p.a, p.b]
+            }
+        }
+    };
+}
+
 pub const fn prog_id(w: u8) -> [u8; 32] {
     let mut b = [0x11u8; 32];
     b[0] = 0x50;
@@ -20,7 +43,10 @@ pub const fn disc_bytes<const W: usize>(kind: u8) -> [u8; W] {
         1 => 0x61,
         2 => 0xa1,
         3 => 0xe1,
-        _ => 0x31,
+        4 => 0x31,
+        5 => 0x41,
+        6 => 0x51,
+        _ => 0x71,
     };
     let mut b = [0u8; W];
     let mut j = 0;
@@ -72,6 +98,9 @@ macro_rules! prog {
                 pub b: u8,
             }
 
+            pod_view!(Zc);
+            pod_view!(Zc0);
+
             /// Zero-sized zero-copy body: an account of this type is exactly its discriminant.
             #[zero_copy(pod)]
             #[derive(Default, Debug, Eq, PartialEq, ProgramAccount)]
@@ -116,4 +145,136 @@ prog!(p32, 32, [u8; 32], mk_arr);
 pub struct ZcFF {
     pub a: u8,
     pub b: u8,
+}
+pod_view!(ZcFF);
+
+// ------------------------------------------------------------------------------------------------
+// Every DECLARATION FORM the framework offers for a program account. The "declaring program" of
+// each type below is the program NAMED in its declaration (or, without a `program` argument, the
+// crate's declared program `crate::DeclProg`, see main.rs); `ops::table()` records that program's
+// id by naming it, never through `T::OwnerProgram` (which is the derive's OUTPUT, the thing tested).
+// ------------------------------------------------------------------------------------------------
+
+/// A second program with the default (`[u8; 8]`) discriminant type, so that the default
+/// Anchor-style sighash discriminants can be used for a program that is NOT the crate's declared one.
+pub mod q8 {
+    use super::*;
+    pub static PID: Pubkey = Pubkey::new_from_array(prog_id(0xD1));
+    #[derive(StarFrameProgram)]
+    #[program(instruction_set = (), id = Pubkey::new_from_array(prog_id(0xD1)), no_entrypoint, no_setup, skip_idl)]
+    pub struct Prog;
+}
+pub static DECL_PID: Pubkey = Pubkey::new_from_array(prog_id(0xD0));
+
+#[derive(Debug, GetSeeds, Clone)]
+#[get_seeds(seed_const = b"HX")]
+pub struct HxSeeds {
+    pub k: Pubkey,
+}
+
+// --- no `program` argument: the crate's declared program, default sighash discriminant
+#[zero_copy(pod)]
+#[derive(Default, Debug, Eq, PartialEq, ProgramAccount)]
+#[program_account(skip_idl)]
+pub struct DZc {
+    pub a: u8,
+    pub b: u8,
+}
+pod_view!(DZc);
+
+#[derive(BorshSerialize, BorshDeserialize, Default, Debug, Clone, PartialEq, Eq, ProgramAccount)]
+#[program_account(skip_idl)]
+pub struct DFix {
+    pub a: u16,
+    pub b: u8,
+}
+
+#[unsized_type(program_account, skip_idl)]
+pub struct DUn {
+    pub a: u8,
+    pub b: u8,
+    #[unsized_start]
+    pub rest: RemainingBytes,
+}
+ab_view!(DUn);
+
+#[unsized_type(program_account, skip_idl, seeds = HxSeeds)]
+pub struct DUnSeeds {
+    pub a: u8,
+    pub b: u8,
+    #[unsized_start]
+    pub rest: RemainingBytes,
+}
+ab_view!(DUnSeeds);
+
+// --- `#[unsized_type(program_account, program = P)]` with P != the declared program
+#[unsized_type(program_account, skip_idl, program = q8::Prog)]
+pub struct UnQ8 {
+    pub a: u8,
+    pub b: u8,
+    #[unsized_start]
+    pub rest: RemainingBytes,
+}
+ab_view!(UnQ8);
+
+#[unsized_type(program_account, skip_idl, program = q8::Prog, seeds = HxSeeds)]
+pub struct UnQ8Seeds {
+    pub a: u8,
+    pub b: u8,
+    #[unsized_start]
+    pub rest: RemainingBytes,
+}
+ab_view!(UnQ8Seeds);
+
+// (explicit discriminants under a program whose discriminant type is also `[u8; 8]`: a declaration whose
+// `program` argument is lost must still COMPILE, so that the wrong owner program shows at run time)
+#[unsized_type(program_account, skip_idl, program = q8::Prog, discriminant = mk_arr(disc_bytes::<8>(5)))]
+pub struct UnQ8Disc {
+    pub a: u8,
+    pub b: u8,
+    #[unsized_start]
+    pub rest: RemainingBytes,
+}
+ab_view!(UnQ8Disc);
+
+#[unsized_type(program_account, skip_idl, program = q8::Prog, seeds = HxSeeds, discriminant = mk_arr(disc_bytes::<8>(6)))]
+pub struct UnQ8DiscSeeds {
+    pub a: u8,
+    pub b: u8,
+    #[unsized_start]
+    pub rest: RemainingBytes,
+}
+ab_view!(UnQ8DiscSeeds);
+
+// --- derive forms with `seeds` and the default discriminant under a named program
+#[zero_copy(pod)]
+#[derive(Default, Debug, Eq, PartialEq, ProgramAccount)]
+#[program_account(program = p2::Prog, seeds = HxSeeds, discriminant = u16::from_le_bytes(disc_bytes::<2>(5)), skip_idl)]
+pub struct ZcSeeds2 {
+    pub a: u8,
+    pub b: u8,
+}
+pod_view!(ZcSeeds2);
+
+#[zero_copy(pod)]
+#[derive(Default, Debug, Eq, PartialEq, ProgramAccount)]
+#[program_account(program = q8::Prog, skip_idl)]
+pub struct ZcQ8 {
+    pub a: u8,
+    pub b: u8,
+}
+pod_view!(ZcQ8);
+
+#[derive(BorshSerialize, BorshDeserialize, Default, Debug, Clone, PartialEq, Eq, ProgramAccount)]
+#[program_account(program = q8::Prog, seeds = HxSeeds, skip_idl)]
+pub struct FixQ8Seeds {
+    pub a: u16,
+    pub b: u8,
+}
+
+/// The default discriminant of an account type named `name`, per the documented Anchor convention
+/// (`sha256("account:<name>")[..8]`), computed independently of the derive.
+pub fn anchor_disc(name: &str) -> Vec<u8> {
+    use sha2::Digest;
+    sha2::Sha256::digest(format!("account:{name}").as_bytes())[..8].to_vec()
 }
